@@ -77,3 +77,133 @@ c = R.contract(
 )
 c.defaults = {"priority": 0}
 c.no_frame = True
+
+# ---------------------------------------------------------------- lookup of the ordered view and one whole dispatch
+# `_sorted[e]` is a cache of the order computed from `_listeners[e]`.  What keeps it coherent is proved in three pieces:
+# add_listener drops the entry of the event it registers for (above); get_listeners computes the view whenever there is
+# no entry and hands out exactly the cached list otherwise (below); and nothing else in the class writes either table
+# (structural obligation `EventDispatcher.frame.table_writers`).  The order itself (sorted() by priority) is bounded.
+R.shape("EventDispatcher", g_sorts="int", g_last_sorted="str")
+SL = M_ED + ":EventDispatcher._sort_listeners"
+R.contract(
+    SL, params={"event_name": "str"},
+    requires=["event_name in self._listeners"],
+    ensures=["event_name in self._sorted", "self.g_sorts == old(self.g_sorts) + 1", "self.g_last_sorted == event_name",
+             "same_except(self._sorted, event_name)"],
+    modifies=["items(self._sorted)", "self.g_sorts", "self.g_last_sorted"],
+    assumed=True,
+    note="builds the ordered view of one event from its priority buckets (sorted(), external: the order is checked by the "
+         "bounded tier); ghost: counts the computations and remembers the event of the last one",
+)
+GL = M_ED + ":EventDispatcher.get_listeners"
+R.contract(
+    GL, variant="named",
+    params={"event_name": "str"},
+    returns="list[fn]",
+    ensures=[
+        "implies(event_name not in self._listeners, len(result) == 0)",
+        # what is handed out is the cached view of THIS event ...
+        "implies(event_name in self._listeners, event_name in self._sorted and result is self._sorted[event_name])",
+        # ... computed now if there was none (e.g. dropped by a registration since the last dispatch) ...
+        "implies(event_name in self._listeners and old(event_name not in self._sorted), "
+        "self.g_sorts == old(self.g_sorts) + 1 and self.g_last_sorted == event_name)",
+        # ... and nothing is recomputed or replaced otherwise
+        "implies(event_name not in self._listeners or old(event_name in self._sorted), self.g_sorts == old(self.g_sorts))",
+        "same_except(self._sorted, event_name)",
+    ],
+    modifies=["items(self._sorted)", "self.g_sorts", "self.g_last_sorted"],
+)
+HL = M_ED + ":EventDispatcher.has_listeners"
+R.contract(
+    HL, variant="named",
+    params={"event_name": "str"},
+    returns="bool",
+    ensures=["result == (event_name in self._listeners and len(self._listeners[event_name]) > 0)"],
+    modifies=[],
+)
+DP = M_ED + ":EventDispatcher.dispatch"
+ND = "(len(result.g_log) - len(old(event.g_log)))"
+R.contract(
+    DP, variant="given_event",
+    params={"event_name": "str", "event": "ref Event"},
+    returns="ref Event",
+    ensures=[
+        "result is event",
+        # no listener of this event: nobody is called
+        "implies(event_name not in self._listeners, %s == 0)" % ND,
+        # otherwise: a prefix of the ordered view of THIS event, each listener once and in order, ending only at the end of
+        # the view or because propagation was stopped
+        "implies(event_name in self._listeners, event_name in self._sorted and 0 <= %s and %s <= len(self._sorted[event_name]) "
+        "and event.g_log == old(event.g_log) + seq(self._sorted[event_name])[:%s] "
+        "and (%s == len(self._sorted[event_name]) or event._propagation_stopped))" % (ND, ND, ND, ND),
+        "implies(old(event._propagation_stopped), %s == 0)" % ND,
+    ],
+    raises={"Exception": "True"},
+    modifies=["items(self._sorted)", "self.g_sorts", "self.g_last_sorted", "event.g_log", "event._propagation_stopped"],
+)
+TARGETS_LOOKUP = [{"qual": GL, "tag": "named"}, {"qual": HL, "tag": "named"}, {"qual": DP, "tag": "given_event"}]
+
+
+def structural():
+    """who writes the two tables of the dispatcher (AST of the working tree)"""
+    import ast
+
+    from pyvc import frontend
+
+    P = frontend.Program()
+    ci = P.module(M_ED).classes["EventDispatcher"]
+    allowed = {
+        "_listeners": {"__init__": {"assign"}, "add_listener": {"store-item", "call:append"}},
+        "_sorted": {"__init__": {"assign"}, "add_listener": {"del-item"}, "_sort_listeners": {"store-item", "call:append"}},
+    }
+    mutators = {"append", "extend", "insert", "pop", "remove", "clear", "update", "setdefault", "popitem", "sort", "reverse",
+                "__setitem__", "__delitem__"}
+
+    def table_of(x):
+        """name of the table an expression is rooted at (self._listeners[...][...]), else None"""
+        while isinstance(x, (ast.Subscript, ast.Call, ast.Attribute)):
+            if isinstance(x, ast.Attribute) and isinstance(x.value, ast.Name) and x.value.id == "self" and x.attr in allowed:
+                return x.attr
+            x = x.func if isinstance(x, ast.Call) else x.value
+        return None
+
+    bad = []
+    for m, fn in ci.methods.items():
+        aliases = {}
+        for n in ast.walk(fn):
+            acts = []
+            if isinstance(n, (ast.Assign, ast.AugAssign, ast.AnnAssign, ast.Delete)):
+                tg = n.targets if isinstance(n, (ast.Assign, ast.Delete)) else [n.target]
+                for t in tg:
+                    for e in (t.elts if isinstance(t, (ast.Tuple, ast.List)) else [t]):
+                        if isinstance(e, ast.Attribute) and isinstance(e.value, ast.Name) and e.value.id == "self" and e.attr in allowed:
+                            acts.append((e.attr, "del" if isinstance(n, ast.Delete) else "assign"))
+                        elif isinstance(e, ast.Subscript) and table_of(e.value):
+                            acts.append((table_of(e.value), "del-item" if isinstance(n, ast.Delete) else "store-item"))
+                # a table (or a part of it) bound to a local name could be written through that name
+                if isinstance(n, ast.Assign) and table_of(n.value) and not isinstance(n.value, ast.Call):
+                    for t in n.targets:
+                        if isinstance(t, ast.Name):
+                            aliases[t.id] = table_of(n.value)
+            if isinstance(n, ast.Call) and isinstance(n.func, ast.Attribute) and n.func.attr in mutators:
+                tb = table_of(n.func.value)
+                if tb is None and isinstance(n.func.value, ast.Name) and n.func.value.id in aliases:
+                    tb = aliases[n.func.value.id]
+                if tb:
+                    acts.append((tb, "call:" + n.func.attr))
+            for tb, act in acts:
+                if act not in allowed[tb].get(m, ()):
+                    bad.append("%s: %s of self.%s (line %d)" % (m, act, tb, n.lineno))
+    extra = sorted(a for a in {x.attr for fn in ci.methods.values() for x in ast.walk(fn)
+                               if isinstance(x, ast.Attribute) and isinstance(x.value, ast.Name) and x.value.id == "self"}
+                   if a not in allowed and a not in ci.methods)
+    return [{
+        "name": "C12.EventDispatcher.frame.table_writers", "kind": "frame",
+        "text": "the registration table is written by __init__ and add_listener only, the cache of ordered views by __init__, "
+                "_sort_listeners (fills the view of one event) and add_listener (drops the view of one event) only",
+        "status": "proved" if not bad else "failed", "note": "; ".join(bad[:6]),
+    }, {
+        "name": "C12.EventDispatcher.frame.no_other_state", "kind": "frame",
+        "text": "the dispatcher keeps no state besides the registration table and the cache of ordered views",
+        "status": "proved" if not extra else "failed", "note": ", ".join("self." + a for a in extra[:6]),
+    }]
